@@ -14,6 +14,17 @@ const maxInlineDepth = 5
 func (c *Ctx) execRange(fr *Frame, x *ssa.Range, st *State, reach string) {
 	v := c.operand(fr, x.X, st)
 	fr.vals[x] = Val{T: c.term(v), Typ: x.X.Type()} // iterator remembers the collection
+	if mt, ok := x.X.Type().Underlying().(*types.Map); ok && c.specDepth == 0 {
+		// ghost: the set of keys this range has produced so far, and which keys were present at its start
+		hn, hs, _, _, ks, _ := c.mapArrays(mt, st)
+		srt := fmt.Sprintf("(Array %s Bool)", ks)
+		set := c.defineAlways("vis", srt, fmt.Sprintf("((as const %s) false)", srt))
+		has0 := c.defineAlways("vis_has0", srt, fmt.Sprintf("(select %s %s)", c.arr(st, hn, hs), c.term(v)))
+		if st.vis == nil {
+			st.vis = map[*ssa.Range]visInfo{}
+		}
+		st.vis[x] = visInfo{set: set, has0: has0, sort: srt}
+	}
 }
 
 func (c *Ctx) execNext(fr *Frame, x *ssa.Next, st *State, reach string) {
@@ -34,6 +45,16 @@ func (c *Ctx) execNext(fr *Frame, x *ssa.Next, st *State, reach string) {
 	va := c.arr(st, vn, vs)
 	v := c.define(x.Name()+"_v", es, fmt.Sprintf("(select (select %s %s) %s)", va, it.T, k))
 	c.assume(reach, fmt.Sprintf("(=> %s (and (not (= %s 0)) (select (select %s %s) %s)))", ok, it.T, h, it.T, k))
+	if vi, has := st.vis[rng]; has {
+		// Go: every entry present from the start to the end of the loop is produced exactly once
+		c.assume(reach, fmt.Sprintf("(=> %s (not (select %s %s)))", ok, vi.set, k))
+		q := c.fresh("k")
+		c.assume(reach, fmt.Sprintf("(=> (not %s) (forall ((%s %s)) (! (=> (and (select %s %s) (select (select %s %s) %s)) (select %s %s)) :pattern ((select %s %s)) :pattern ((select (select %s %s) %s)))))",
+			ok, q, ks, vi.has0, q, h, it.T, q, vi.set, q, vi.set, q, h, it.T, q))
+		nv := vi
+		nv.set = c.defineAlways("vis", vi.sort, fmt.Sprintf("(ite %s (store %s %s true) %s)", ok, vi.set, k, vi.set))
+		st.vis[rng] = nv
+	}
 	c.assume(reach, implies(ok, c.typeFact(k, mt.Key(), st, 1)))
 	c.assume(reach, implies(ok, c.typeFact(v, mt.Elem(), st, 1)))
 	c.wfMapRead(and(reach, ok), v, mt, st)
@@ -1074,6 +1095,11 @@ func (c *Ctx) tracedKey(fr *Frame, cc *ssa.CallCommon) (int, bool) {
 	if c.specDepth > 0 || cc.IsInvoke() {
 		return 0, false
 	}
+	if fr != c.topFrame {
+		// the log records the calls this activation makes itself; calls made inside a helper that the engine
+		// happens to inline belong to the helper (otherwise the meaning of ncalls would depend on inlining)
+		return 0, false
+	}
 	if callee := cc.StaticCallee(); callee != nil {
 		if _, isClosure := cc.Value.(*ssa.MakeClosure); isClosure {
 			return 0, false
@@ -1110,7 +1136,7 @@ func (c *Ctx) logCall(fr *Frame, st *State, reach string, id int, cc *ssa.CallCo
 	}
 	put("TR_fn", smtInt(int64(id)))
 	k := 0
-	loggedSlice := false
+	loggedSlice, loggedSlice2 := false, false
 	for ai, a := range cc.Args {
 		if k >= 6 {
 			break
@@ -1134,6 +1160,15 @@ func (c *Ctx) logCall(fr *Frame, st *State, reach string, id int, cc *ssa.CallCo
 			put("TR_sa_off", "(s_off "+sv+")")
 			put("TR_sa_len", "(s_len "+sv+")")
 			put("TR_sa_cap", "(s_cap "+sv+")")
+			continue
+		}
+		if srt == "Slice" && !loggedSlice2 {
+			loggedSlice2 = true
+			sv := c.term(c.operand(fr, a, st))
+			put("TR_sb_arr", "(s_arr "+sv+")")
+			put("TR_sb_off", "(s_off "+sv+")")
+			put("TR_sb_len", "(s_len "+sv+")")
+			put("TR_sb_cap", "(s_cap "+sv+")")
 			continue
 		}
 		if srt != "Int" && srt != "Bool" {
